@@ -188,6 +188,68 @@ HANDLER_KIND = {"invoke_safe_str_constraint_handler": "str", "invoke_safe_mem_co
                 "handle_mem_bos_chk_warn": "mem"}
 
 
+def status_rule(ck, prog, report=None, tu="src/str/vsnprintf_s.c", min_sites=40):
+    """error discipline of the formatting engine: the output callback reports 'does not fit' by invoking the constraint handler and returning a
+    negative status; the engine's routines hand that status up (54 call sites: `rc = out(..); if (rc < 0) return rc;`).  A status that is
+    dropped lets the formatting go on -- further handler calls, a positive return, dest neither cleared nor terminated.  Rule: the result of
+    every call through the `out` parameter is compared with zero by a signed comparison or returned (directly or through phis / integer
+    casts); the result of every routine of the engine that itself takes `out` and returns an integer is at least used."""
+    report = report or ck.report
+    fns = [f for f in prog.allfuncs if f.mod["tu"] == tu]
+    prod = {f.name for f in fns if "out" in f.pnames and f.j.get("ret", "i32").startswith("i")}
+
+    def users(fn, v):
+        return [u for u in fn.insts() if any(o.get("k") == "v" and o.get("id") == v for o in list(u.get("ops", ())) + [w["v"] for w in u.get("incoming", ())] + list(u.get("args", ())))]
+
+    def checked(fn, v, depth=0, seen=None):
+        seen = seen if seen is not None else set()
+        if v in seen or depth > 6:
+            return False
+        seen.add(v)
+        for u in users(fn, v):
+            if u["op"] == "icmp" and u["pred"] in ("slt", "sle", "sgt", "sge"):
+                return True
+            if u["op"] == "ret":
+                return True
+            if u["op"] in ("phi", "sext", "zext", "trunc") and "id" in u and checked(fn, u["id"], depth + 1, seen):
+                return True
+        return False
+    n = 0
+    sites = []
+    for fn in fns:
+        outp = fn.pnames.get("out")
+        for c in fn.calls():
+            is_out = c.get("callee") is None and outp is not None and c.get("callee_v", {}).get("id") == outp["id"]
+            if not (is_out or c.get("callee") in prod):
+                continue
+            n += 1
+
+            def used(v, depth=0, seen=None):
+                seen = seen if seen is not None else set()
+                if v in seen or depth > 8:
+                    return False
+                seen.add(v)
+                for u in users(fn, v):
+                    if u["op"] != "phi":
+                        return True
+                    if used(u["id"], depth + 1, seen):
+                        return True
+                return False
+            # the callback's status must be tested or returned; a routine's result (new index or negative status) must at least be used --
+            # that the engine goes on formatting with a negative index is the recorded 'formatter double report' finding, not this rule's
+            bad = not ("id" in c and checked(fn, c["id"])) if is_out else not ("id" in c and used(c["id"]))
+            if bad:
+                what = c.get("callee") or "the output callback"
+                ordinal = sum(1 for s_ in sites if s_[0] == fn.name and s_[1] == what) + 1
+                sites.append((fn.name, what))
+                report("C05:status-dropped:%s:%s#%d" % (fn.name, what.replace(" ", "-"), ordinal), "H-status-handed-up", fn.loc(c),
+                       "%s ignores the status returned by %s: when the output does not fit the callback has invoked the constraint handler, but the formatting continues "
+                       "(more handler calls, a positive result, dest neither cleared nor terminated)" % (fn.name, what))
+    if n < min_sites:
+        ck.fail_broken("status rule: only %d calls of the output callback / status-returning routines found in %s (< %d)" % (n, tu, min_sites))
+    return dict(call_sites=n, status_returning_routines=sorted(prod), dropped=len(sites))
+
+
 def family_rule(ck, prog, names, report=None):
     """sibling agreement: all reports of one function go to the handler of one family (string or memory).  The registrations are independent
     (C13), so a violation sent to the other family's handler is invisible to a program that registered the one the rest of the function uses."""
@@ -257,8 +319,9 @@ def run(ck):
         if n in per:
             ck.sample(dict(function=n, **per[n]))
     fam = family_rule(ck, prog, names)
+    stat = status_rule(ck, prog)
     fx = selftest(ck)
-    cov = dict(handler_family=fam, explanation="Path-sensitive exploration (symbolic store + linear path facts, loop phis opaque, library helpers and nested exported callees inlined to depth 3, "
+    cov = dict(handler_family=fam, engine_status_discipline=stat, explanation="Path-sensitive exploration (symbolic store + linear path facts, loop phis opaque, library helpers and nested exported callees inlined to depth 3, "
                "larger callees by assume-guarantee on their own convention) of all %d exported functions with a failure indication: %d distinct (return, handler-state) "
                "path outcomes from %d explored path states. Rules at each return: handler count <= 1; error indication <=> exactly one invocation; code passed = code returned "
                "(errno_t / negated int / EOF / NULL / false / 0 conventions per function). Ordering clause: in %d functions with a recognised RSIZE limit check "
@@ -282,6 +345,13 @@ def selftest(ck):
     out["family"] = got
     if len(got) != 1 or "fx_family_mixed_s" not in got[0]:
         ck.fail_broken("fixture c05.c: handler-family rule reported %s" % got)
+    got = []
+    class Sink:
+        def fail_broken(s, m): got.append("BROKEN " + m)
+    sr = status_rule(Sink(), prog, report=lambda key, *a, **k: got.append(key), tu=prog.mods[0]["tu"], min_sites=4)
+    out["status"] = dict(sr, reports=got)
+    if got != ["C05:status-dropped:fx_fmt_pad_dropped:the-output-callback#1"]:
+        ck.fail_broken("fixture c05.c: status rule reported %s" % got)
     for n, w in want.items():
         r = worker(prog, n)
         got = sorted({f["rule"] for f in r.get("findings", [])}) if "findings" in r else ["budget"]
